@@ -35,7 +35,7 @@ ASSUMPTIONS = [
     "operators or hardware features outside the model make a case inconclusive (counted in the evidence), never a violation",
 ]
 
-APPROX_CODES = {"LOGISTIC", "TANH", "HARD_SWISH", "LEAKY_RELU", "SOFTMAX", "MEAN", "RESIZE_BILINEAR", "RESIZE_NEAREST_NEIGHBOR", "TRANSPOSE_CONV", "ABS", "PRELU"}
+APPROX_CODES = {"EXP", "LOG", "SQRT", "RSQRT", "GELU", "LOGISTIC", "TANH", "HARD_SWISH", "LEAKY_RELU", "SOFTMAX", "MEAN", "RESIZE_BILINEAR", "RESIZE_NEAREST_NEIGHBOR", "TRANSPOSE_CONV", "ABS", "PRELU"}
 
 
 def make_inputs(model, seed):
@@ -73,6 +73,7 @@ def reference(src, xs):
     v = it.run(dict(zip(sg["inputs"], xs)))
     outs.append((0, [v[i] for i in sg["outputs"]]))
     reference.loose = it.loose
+    reference.masks = [it.undef.get(i) for i in sg["outputs"]]  # elements for which the reference defines no value (the same for every mode)
     if it.ambiguous:
         bits = it.ambiguous_bits
         for mode in (1, 2, 3):
@@ -84,7 +85,7 @@ def reference(src, xs):
     return outs
 
 
-def compare(got, want, tol):
+def compare(got, want, tol, masks=None):
     worst = 0
     where = None
     for k, (g, w) in enumerate(zip(got, want)):
@@ -93,6 +94,8 @@ def compare(got, want, tol):
         if g.shape != w.shape:
             return 1 << 30, (k, "shape %s vs %s" % (g.shape, w.shape))
         d = np.abs(g - w)
+        if masks is not None and masks[k] is not None:
+            d = np.where(np.asarray(masks[k]).reshape(-1), 0, d)  # the reference defines no value there
         if d.size and d.max() > max(worst, tol):
             worst = int(d.max())
             j = int(np.argmax(d))
@@ -156,7 +159,7 @@ def oracle(case, rec=None):
                 raise Violation("C01/undecodable", str(e), case, tags)
             finally:
                 npusim.OPERAND_SCALING = 2
-            worst, where = compare(got, want, max(tol, getattr(reference, "loose", 0)))
+            worst, where = compare(got, want, max(tol, getattr(reference, "loose", 0)), getattr(reference, "masks", None))
             verdicts.append((worst, where, mode))
             if where is None:
                 if opscale != 2 and rec is not None:
